@@ -50,7 +50,7 @@ def main():
     os.environ["TSDATE_REPO"] = repo
     os.environ["TSDATE_VERIF"] = "1"  # guard name recorded in MANIFEST.hooks (no source hook uses it today)
     os.environ.pop("TSDATE_ENABLE_NUMBA_CACHE", None)  # numba disk cache stays off: always compile current sources
-    if prop in NOJIT and not os.environ.get("VERIF_FORCE_JIT"):
+    if (prop in NOJIT or os.environ.get("VERIF_NOJIT")) and not os.environ.get("VERIF_FORCE_JIT"):
         os.environ["NUMBA_DISABLE_JIT"] = "1"
     sys.path.insert(0, repo)
     sys.path.insert(0, VERIF_DIR)
